@@ -5,7 +5,7 @@ CONSTANTS NP = 2
   ProbeNames <- PNames
   ProbeHws <- PHws
   InitSets <- Init2s
-  MaxEarly = 2
+  MaxEarly = 1
   D = 0
 INIT Init
 NEXT Next
